@@ -46,6 +46,7 @@ pub fn scenarios(prop: &str, tier: Tier) -> Vec<ScenarioDef> {
         "C03" => crate::c03::scenarios(tier),
         "C04" => crate::c04::scenarios(tier),
         "C07" => crate::c07::scenarios(tier),
+        "C09" => crate::c09::scenarios(tier),
         "C13" => crate::c13::scenarios(tier),
         "C14" => crate::c14::scenarios(tier),
         "C19" => crate::c19::scenarios(tier),
